@@ -124,6 +124,7 @@ func (x *Exec) Submit(to int) {
 		return
 	}
 	x.note("submit %d", to)
+	before := x.Tip
 	x.emit(map[string]any{"op": "Submit", "to": to})
 	cls, ops, detail := x.N.Submit(x.blocksTo(to), nil, 0)
 	if cls != "ok" {
@@ -149,9 +150,15 @@ func (x *Exec) Submit(to int) {
 	x.Tip = tip
 	x.emit(map[string]any{"op": "Done", "tip": tip})
 	// the specification's reorg rule is "more blocks = more work" (equal block spacing): make sure the
-	// real node agrees, otherwise the history is outside what the scenario generator promises
-	want := x.Tip
-	_ = want
+	// real node agrees, otherwise the history is outside what the scenario generators promise
+	want := before
+	if x.S.Node(to).Height > x.S.Node(before).Height {
+		want = to
+	}
+	if tip != want {
+		x.mismatch("harness:reorg-rule", "submitting node %d (height %d) with tip %d (height %d) left the tip at %d", to, x.S.Node(to).Height, before, x.S.Node(before).Height, tip)
+		x.dead = true
+	}
 }
 
 // ---------------------------------------------------------------- Go-side retention tracker
@@ -915,13 +922,16 @@ func (x *Exec) AddSet(kind string, basis int, set []Inst) string {
 				x.keep[x.S.Tx(t).ID] = true
 			}
 		}
-		for _, t := range names {
-			p := x.S.Tx(t)
-			if p.V2 {
-				x.accWeight += x.S.Node(x.Tip).L.CS.V2TransactionWeight(p.T2)
-			} else {
-				x.accWeight += x.S.Node(x.Tip).L.CS.TransactionWeight(p.T1)
-			}
+	}
+	// upper bound of the weight the pool may hold now: every member counts, whatever the reply (a
+	// rejected set may have been partly appended -- finding C14-partial-add-on-pool-conflict -- and
+	// its weight then triggers the eviction at the next query); `full` only PERMITS evictions
+	for _, t := range names {
+		p := x.S.Tx(t)
+		if p.V2 {
+			x.accWeight += x.S.Node(x.Tip).L.CS.V2TransactionWeight(p.T2)
+		} else {
+			x.accWeight += x.S.Node(x.Tip).L.CS.TransactionWeight(p.T1)
 		}
 	}
 	if reply == "panic" {
